@@ -11,6 +11,7 @@
     stream `c16_macro` : (macro IDX xSRC (props (xKEY V)…) (ext (xLABEL xFLAGS)…)) → `parts=<P,…> msg=<hex>`
                       P ::= T<text> | H<label> | H<label>+ (has a formatter);  SRC = source text of the template literal of
                       harness fixture IDX, between the quotes; the model recomputes parts and message from SRC
+    stream `c16_scan` : (scan xSRC) → `err` | the parts `macroParts [] SRC` generates: T<text> | H<label> | H<label>:<flags>
 -/
 import EmitModel.Base.Sexp
 import EmitModel.Model.Template
@@ -168,7 +169,29 @@ def runMacro (line : String) : String :=
     | _, _, _, _ => "bad-op"
   | _ => "bad-op"
 
+def showScanPart : MPart → String
+  | .text t => "T" ++ hexOfBytes (utf8 t)
+  | .hole l none => "H" ++ hexOfBytes (utf8 l)
+  | .hole l (some f) => "H" ++ hexOfBytes (utf8 l) ++ ":" ++ hexOfBytes (utf8 f)
+
+def runScan (line : String) : String :=
+  match Sexp.parse line with
+  | some (.list [.atom "scan", src]) =>
+    match src.str? with
+    | some src =>
+      match macroParts [] src.toList with
+      | none => "err\terr"
+      | some mparts =>
+        let nh := mparts.countP fun p => match p with | .hole _ _ => true | _ => false
+        let nf := mparts.countP fun p => match p with | .hole _ (some _) => true | _ => false
+        let esc := src.toList.contains '\\'
+        let dbl := (src.splitOn "{{").length > 1 || (src.splitOn "}}").length > 1
+        let sig := if src.isEmpty then "trivial" else s!"holes={min nh 3},fmt={min nf 2},dbl={dbl},bs={esc}"
+        s!"{",".intercalate (mparts.map showScanPart)}\t{sig}"
+    | none => "bad-op"
+  | _ => "bad-op"
+
 def streams : List (String × (String → String)) :=
-  [("c16_eq", runEq), ("c16_render", runRender), ("c16_macro", runMacro)]
+  [("c16_eq", runEq), ("c16_render", runRender), ("c16_macro", runMacro), ("c16_scan", runScan)]
 
 end EmitModel.Driver.C16
